@@ -471,6 +471,104 @@ def r6_exact_filters(ctx):
         return
     ctx.check(table == {"Hidden": {False}, "Gained": {True}, "Visible": {True}}, "is_visible/true-for-Gained-and-Visible", site_of(iv), "is_visible maps %s" % table)
 
+def r8_recycled_buffers(ctx):
+    """Recycled buffers of the replication path (removal ids, message ranges, entity lists) are empty when reused, so a message never
+    carries records of an earlier tick or entity (C09.R1c restricted to the server's replication buffers)."""
+    import rules.C09 as C09
+    before = len(ctx.instances)
+    C09.r1c_pool_hygiene(ctx)
+    keep = []
+    for i in ctx.instances[before:]:
+        if any(k in i["key"] for k in ("RemovalBuffer", "RemovalReader", "Mutations.", "Updates.", "EntityBuffer")) or (not i["ok"] and "pools" in i["key"]):
+            keep.append(i)
+    ctx.instances[before:] = keep
+
+
+RB = "bevy_replicon::server::removal_buffer::RemovalBuffer"
+
+
+def r9_despawn_supersedes(ctx):
+    """Cross-buffer consistency of the two tick-scoped structural buffers: an entity that enters the despawn buffer must not keep
+    removal records buffered in earlier frames of the tick window - the client applies despawns before removals and re-creates an
+    entity it gets a removal for (src/client.rs apply_removals), which would leave a zombie. Accepted: the despawn-buffering path
+    forgets the entity's removals, or the removal writer filters entities that are being despawned."""
+    F = ctx.F
+    tr_cache = {}
+    writers = []
+    for b in F.real_fns():
+        if "::tests::" in b.path or not b.path.startswith("bevy_replicon::server"):
+            continue
+        t_ = tracer(b)
+        for bb, t in b.calls():
+            if callee_decl(t).endswith("Vec::<T, A>::push") and t.get("args"):
+                for o in t_.operand(t["args"][0]):
+                    if o.kind == "param" and "DespawnBuffer" in b.locals[o.data]["ty"]:
+                        writers.append((b, bb, t))
+    if not ctx.check(len(writers) >= 1, "DespawnBuffer/writers", "", "no function pushes into the despawn buffer"):
+        return
+    # RemovalBuffer methods that forget one entity: remove on `removals` keyed by a parameter, without inserting it back
+    forgetters = {}
+    for p, b in F.fns.items():
+        if b.j.get("impl_self_adt") != RB or b.kind != "AssocFn" or "::tests::" in p:
+            continue
+        t_ = tracer(b)
+        rem = [(bb, t) for bb, t in b.calls() if callee_decl(t).rsplit("::", 1)[-1] in ("remove", "remove_entry", "retain") and
+               any(any(e[0] == "f" and e[2] == "removals" for e in x.path) for x in t_.operand(t["args"][0]))]
+        ins = [(bb, t) for bb, t in b.calls() if callee_decl(t).rsplit("::", 1)[-1] in ("insert", "entry") and
+               any(any(e[0] == "f" and e[2] == "removals" for e in x.path) for x in t_.operand(t["args"][0]))]
+        if rem and not ins:
+            for bb, t in rem:
+                keyp = {o.data for a in t["args"][1:2] for o in t_.operand(a) if o.kind == "param"}
+                if keyp:
+                    forgetters[p] = min(keyp)
+    # filter in the removal writer
+    cr = ctx.fn("server::collect_removals")
+    filt = False
+    for bb, t in cr.calls():
+        if callee_decl(t).endswith("Updates::add_removals"):
+            for (sb, c, o) in required_outcomes(F, cr, bb):
+                ops = list(c.get("args", [])) + list(c.get("operands", [])) + ([{"k": "copy", "place": c["place"]}] if "place" in c else [])
+                for op in ops:
+                    for (k, d) in dep_closure(cr, op):
+                        if k == "param" and any(n in cr.locals[d]["ty"] for n in ("DespawnBuffer", "Entities", "World")):
+                            filt = True
+    # ... or anywhere else, for every entity taken out of the despawn buffer
+    swept = False
+    for b0 in F.real_fns():
+        if "::tests::" in b0.path or not b0.path.startswith("bevy_replicon::server"):
+            continue
+        for bb0, t0 in b0.calls():
+            d0 = callee_decl(t0)
+            if d0 in forgetters and forgetters[d0] - 1 < len(t0["args"]):
+                if any(k == "param" and "DespawnBuffer" in b0.locals[x]["ty"] for (k, x) in dep_closure(b0, t0["args"][forgetters[d0] - 1])):
+                    swept = True
+    for (b, bb, t) in writers:
+        t_ = tracer(b)
+        def sig(op):
+            out = set()
+            for o in t_.operand(op):
+                if o.kind == "call":
+                    ct = b.blocks[o.data].term
+                    roots = tuple(sorted({(k, d) for a in ct.get("args", []) for (k, d) in dep_closure(b, a) if k == "param"}))
+                    out.add(("call", callee_decl(ct), roots))
+                else:
+                    out.add((o.kind, o.data))
+            return out
+        ent = sig(t["args"][1])
+        purged = False
+        for b2, t2 in b.calls():
+            d = callee_decl(t2)
+            if d in forgetters:
+                idx = forgetters[d] - 1
+                if idx < len(t2["args"]) and ent & sig(t2["args"][idx]):
+                    purged = True
+        ctx.check(purged or filt or swept, "%s/despawn-supersedes-removals" % short(b.path), site_of(b, bb),
+                  "the entity is put into the despawn buffer but component removals buffered for it in earlier frames of the tick window stay in the removal buffer "
+                  "(no RemovalBuffer method forgetting the entity is called here, and collect_removals does not filter despawned entities): the client applies the "
+                  "despawn, then the removal record re-creates the entity (apply_removals spawns unknown entities) - a zombie",
+                  "removals forgotten on despawn" if purged else "removals of every entity in the despawn buffer are forgotten" if swept else "removal writer filters despawned entities")
+
+
 from rules.first_sight import r_first_sight
 
 RULES = [
@@ -481,5 +579,7 @@ RULES = [
     ("C03.R5", "the two directions of the entity map are mutated together; despawn removes its mapping", r5_paired_map, 8, ["default", "all-features", "client-only"]),
     ("C03.R6", "despawn / removal / change records are filtered by exactly the not-hidden test", r6_exact_filters, 7, ["default", "all-features", "server-only"]),
     ("C03.R7", "first-sight completeness: a client that does not hold an entity yet (just authorized, just spawned, visibility gained) is sent every replicated component", r_first_sight, 14, ["default", "all-features", "server-only"]),
+    ("C03.R8", "recycled buffers of the replication path are empty when reused (no records of an earlier tick or entity in a message)", r8_recycled_buffers, 6, ["default", "all-features", "server-only"]),
+    ("C03.R9", "a despawn supersedes removal records buffered earlier in the tick window (no zombie re-created by a removal after the despawn)", r9_despawn_supersedes, 2, ["default", "all-features", "server-only"]),
 ]
 THOROUGH_CONFIGS = ["default", "all-features", "server-only", "client-only"]
